@@ -66,6 +66,13 @@ static double u2d(uint64_t u) { double d; memcpy(&d, &u, 8); return d; }
         else printf("%s\n", status_name(st));                                          \
     } while (0)
 
+/* hex entry points of pparseint.h: same reply format; no pointer-convention test (UNMATCHED after "0x" returns past the prefix) */
+#define PHTYP(NAME, TYPE, FMT, CAST) do {                                              \
+        TYPE v = (TYPE)0x5a; int st = 77; const char *r = parse_hex_ ## NAME((const char *)p, len, &v, &st); \
+        if (st >= 0) { if (!r) printf("ODD ok-null\n"); else printf("OK " FMT " %ld\n", (CAST)v, (long)(r - (const char *)p)); } \
+        else printf("%s\n", status_name(st));                                          \
+    } while (0)
+
 #define JTYP(NAME, TYPE, FMT, CAST) do {                                               \
         TYPE v = (TYPE)0x5a; const char *r; ctx_init(&ctx, (const char *)p);           \
         r = flatcc_json_parser_ ## NAME(&ctx, (const char *)p, (const char *)p + len, &v); \
@@ -182,6 +189,24 @@ int main(void) {
             else if (!strcmp(t[1], "i16")) PTYP(int16, int16_t, "%" PRId64, int64_t);
             else if (!strcmp(t[1], "i32")) PTYP(int32, int32_t, "%" PRId64, int64_t);
             else if (!strcmp(t[1], "i64")) PTYP(int64, int64_t, "%" PRId64, int64_t);
+            else printf("BAD\n");
+            free(p);
+        } else if (!strcmp(t[0], "phex") && n == 2) {
+            uint8_t *p; size_t len = hx_decode(t[1], &p); uint64_t v = 0x5a; int st = 77;
+            const char *r = parse_hex_integer((const char *)p, len, &v, &st);
+            if (st >= 0) { if (!r) printf("ODD ok-null\n"); else printf("OK %d %" PRIu64 " %ld\n", st, v, (long)(r - (const char *)p)); }
+            else printf("%s\n", status_name(st));
+            free(p);
+        } else if (!strcmp(t[0], "phtyp") && n == 3) {
+            uint8_t *p; size_t len = hx_decode(t[2], &p);
+            if (!strcmp(t[1], "u8")) PHTYP(uint8, uint8_t, "%" PRIu64, uint64_t);
+            else if (!strcmp(t[1], "u16")) PHTYP(uint16, uint16_t, "%" PRIu64, uint64_t);
+            else if (!strcmp(t[1], "u32")) PHTYP(uint, unsigned int, "%" PRIu64, uint64_t);
+            else if (!strcmp(t[1], "u64")) PHTYP(uint64, uint64_t, "%" PRIu64, uint64_t);
+            else if (!strcmp(t[1], "i8")) PHTYP(int8, int8_t, "%" PRId64, int64_t);
+            else if (!strcmp(t[1], "i16")) PHTYP(int16, int16_t, "%" PRId64, int64_t);
+            else if (!strcmp(t[1], "i32")) PHTYP(int32, int32_t, "%" PRId64, int64_t);
+            else if (!strcmp(t[1], "i64")) PHTYP(int64, int64_t, "%" PRId64, int64_t);
             else printf("BAD\n");
             free(p);
         } else if (!strcmp(t[0], "jint") && n == 2) {
